@@ -71,6 +71,7 @@ impl<'c, KD: Kind, const N: usize> MapEng<'c, KD, N> {
                     variant = OP_INSERT;
                 } else {
                     cx.bump(S::unchecked_inserts);
+                    self.op_unchecked = true;
                     if present.is_some() && slot.order.last() != Some(&k) {
                         cx.bump(S::unchecked_replace_nonlast);
                     }
@@ -110,6 +111,7 @@ impl<'c, KD: Kind, const N: usize> MapEng<'c, KD, N> {
                 cx.bump(S::dup_key_supplied);
                 self.dup_paths |= 1 << variant;
                 if full {
+                    self.op_overflow = true;
                     cx.bump(S::replace_on_full);
                     cx.bump(S::dup_key_on_full);
                 }
@@ -158,6 +160,7 @@ impl<'c, KD: Kind, const N: usize> MapEng<'c, KD, N> {
                 // new key into a full container
                 cx.bump(S::rejected_inserts);
                 rejected = true;
+                self.op_overflow = true;
                 match (&r, variant) {
                     (Ok(Ret::Rejected), OP_CHECKED) => {
                         cx.bump(S::checked_none);
